@@ -11,8 +11,20 @@ PROPS = {
         "technique": "bounded exhaustive (stateless) exploration of operation sequences on the implementation, depth-bounded, with non-initial start states",
         "assumptions": ["a case cut by the per-case CPU/memory budget is counted as cut (C03's subject), not judged"],
     },
+    "C02": {
+        "bin": "px_load", "budget_ms": 5000, "wall_cap": {"quick": 150, "thorough": 2400},
+        "rule": "seed files written by the engine's own writers for 13 extensions (3 documents, with/without SAUCE, 0/1/255 comments, compression on/off) plus hand-built streams, fonts (PSF1, PSF2, raw), TheDraw fonts and bundles, 5 palette formats, "
+                "bare SAUCE records, clipboard data and IcyDraw files kept as chunk lists; per seed every truncation point, a value menu at every header/tail byte, every 16/32-bit field (LE and BE) of the first 48 bytes set to extremes singly and in pairs, "
+                "IcyDraw chunk payload truncations / byte and field faults / reorderings / renames with the PNG container kept valid; every prefix <= 64 bytes of every seed under 24 extensions; all byte strings of length <= 2 under every extension and extractor; "
+                "a deviation-bounded product of SAUCE tails; control-token streams (depth <= 2) as files of the 8 text formats; odd file names. non-trivial = the loader accepted the input",
+        "level_text": "every fault of the stated menus is applied to every seed and loaded by the real loaders and extractors under catch_unwind in killable worker processes",
+        "level_note": "faults are single and pairwise (not arbitrary multi-byte corruption); cases cut by the CPU/memory budget are counted, the header-extreme strata are judged under C03's budget by the C03 check",
+        "technique": "exhaustive fault enumeration (truncation points, corruption menus, field extremes) over a seed corpus on the implementation",
+        "level": "model_checking",
+        "assumptions": ["a case cut by the per-case CPU/memory budget is counted as cut (C03's subject), not judged"],
+    },
     "C03": {
-        "bin": "px_cost", "budget_ms": 3000, "mem_cap_mb": 1024, "judge_budget": True, "wall_cap": {"quick": 150, "thorough": 2400},
+        "bin": "px_cost", "parts": [{"bin": "px_cost"}, {"bin": "px_load"}], "budget_ms": 3000, "mem_cap_mb": 1024, "judge_budget": True, "wall_cap": {"quick": 150, "thorough": 2400},
         "rule": "complete control-function table: CSI final 0x40..0x7E x 8 intermediates x parameter tuples of length 0..6 over {1,0,H,W,2^16,10^6,2^31-1} with <=2 (thorough <=3, full for <=4 parameters) "
                 "positions different from 1, in 4 start contexts on 80x25 and 132x60, plus explicit shape lists (DCS macro repeat / recursion shapes, sixel raster/repeat/colour headers, Avatar repeat and goto byte pairs, "
                 "PSF1/PSF2/raw font payload headers, music/OSC/SGR numbers); per case CPU, peak heap and allocation-scaling are measured in the worker; non-trivial = the input made the engine allocate",
@@ -104,6 +116,8 @@ PROPS = {
 HOOK_COMMITS = ["81babd1"]
 
 ENGINES = [
+    {"name": "px_load", "path": "harness/src/bin/px_load.rs", "serves_properties": ["C02", "C03"],
+     "kind_free_text": "fault enumerator over seed files (truncations, byte / field corruption, IcyDraw chunk payload faults) for all loaders and extractors; header-extreme strata under the C03 cost oracle"},
     {"name": "px_binfmt", "path": "harness/src/bin/px_binfmt.rs", "serves_properties": ["C05", "C06"],
      "kind_free_text": "binary art format round trips with spec-derived reference decoders, XBin row enumeration, re-save stability over faulted files"},
     {"name": "px_palette", "path": "harness/src/bin/px_palette.rs", "serves_properties": ["C16"],
